@@ -40,7 +40,7 @@ Section S.
     gen_dynrf_revolutionpart K O L B = revolutionpart K frev fs steps /\
     gen_sinrf_revolutionpart K O L B = revolutionpart K frev fs steps.
   Proof.
-    intros. unfold t_sync, revolutionpart, dt. open_gen. use_guards. repeat split; field_hyps.
+    cbv zeta. intros. unfold t_sync, revolutionpart, dt. open_gen. use_guards. repeat split; field_hyps.
   Qed.
 
 End S.
